@@ -122,7 +122,8 @@ def audit(pid, module, theorems, work):
     """#print axioms for every property theorem."""
     path = os.path.join(work, f"Audit_{pid}.lean")
     with open(path, "w") as f:
-        f.write(f"import {module}\n")
+        for m_ in (module if isinstance(module, list) else [module]):
+            f.write(f"import {m_}\n")
         for t in theorems:
             f.write(f"#print axioms {t}\n")
     rc, out, dt = sh(["lake", "env", "lean", path], cwd=LEAN, timeout=1200)
@@ -495,18 +496,21 @@ def main():
            "traces_validated_against_impl": 0, "variant_matched": {}, "known_findings_seen": [],
            "harness_build_failed": [], "harness_crashed": 0}
 
-    # ---- 1. translator
-    facts = spec.get("facts")
+    # ---- 1. translator: regenerate lean/AnnVerif/Gen/Facts.lean (constants, decision expressions, if-trees of
+    # the production code) from /repo's working tree; the tie theorems over it are obligations of step 2
+    ties = spec.get("ties") or {}
+    facts = ties.get("sites")
     fact_report = None
-    if facts:
+    if ties:
         rc, o, binpath = go_build("extract", work)
         if rc == 0:
-            rc, o, dt = sh([binpath, "-repo", REPO, "-out", os.path.join(LEAN, "AnnVerif", "Gen"), "-only", ",".join(facts)],
+            rc, o, dt = sh([binpath, "-repo", REPO, "-out", os.path.join(LEAN, "AnnVerif", "Gen"), "-only", ",".join(facts or [])],
                            cwd=work, env=GOENV, timeout=600)
         fact_report = o[-3000:]
+        cov["extra"]["translator"] = {"sites": facts, "output": [l for l in o.split("\n") if l.strip()][-6:]}
         if rc != 0:
             rep.violation({"kind": "translator-failed", "what": "cmd/extract could not regenerate the facts "
-                           "this property's theorems are stated over (construct not recognised or source moved)",
+                           "this property's tie theorems are stated over (construct not recognised or source moved)",
                            "facts": facts, "output": o[-4000:]}, no_input=True)
 
     # ---- 1b. source ties: guarded copies of production statements used by the stepping shim
@@ -570,7 +574,12 @@ def main():
     drivers = sorted({e["driver"] for e in spec.get("engines", [])})
     props_file = os.path.join(LEAN, module.replace(".", "/") + ".lean")
     theorems, n_examples = theorem_names(props_file)
-    rc, out, dt_build = lake_build([module] + drivers)
+    tie_modules = ties.get("modules", [])
+    tie_theorems = []
+    for tm in tie_modules:
+        tt, _ = theorem_names(os.path.join(LEAN, tm.replace(".", "/") + ".lean"))
+        tie_theorems += tt
+    rc, out, dt_build = lake_build([module] + tie_modules + drivers)
     proofs_ok = rc == 0
     discharged = 0
     axioms = {}
@@ -581,8 +590,11 @@ def main():
                        "checks against the facts regenerated from the code" % module,
                        "errors": errs, "fact_report": fact_report}, no_input=True)
     else:
-        rc, axioms, bad, missing, aout = audit(pid, module, theorems, work)
+        theorems = theorems + tie_theorems
+        rc, axioms, bad, missing, aout = audit(pid, [module] + tie_modules, theorems, work)
         files = lean_sources_for(module)
+        for tm in tie_modules:
+            files += [f for f in lean_sources_for(tm) if f not in files]
         hits = grep_forbidden(files)
         if bad or missing or hits or rc != 0:
             audit_problems = bad + ["missing:" + m for m in missing] + hits
@@ -619,7 +631,8 @@ def main():
         "input_distribution": dict(sorted(cov["dist"].items(), key=lambda kv: -kv[1])[:60]),
         "variant_matched": cov["variant_matched"], "known_findings_seen": sorted(set(cov["known_findings_seen"])),
         "engines": [e["harness"] for e in spec.get("engines", [])], "engine_extra": cov["extra"],
-        "facts_regenerated": facts or [], "lake_build_s": round(dt_build, 1),
+        "facts_regenerated": facts or [], "tie_modules": tie_modules, "tie_theorems": tie_theorems,
+        "lake_build_s": round(dt_build, 1),
         "not_modelled": spec.get("not_modelled", []),
         "explanation": spec.get("explanation", ""),
     }
